@@ -222,6 +222,10 @@ class Engine:
             return wrap(obj.vkind, z3.Select(obj.val, k))
         if hasattr(obj, "pyvc_index"):
             return obj.pyvc_index(I, idx, node)
+        if isinstance(obj, SRef):
+            h = self.contract.callees.get(("getitem", obj.cls))
+            if h:
+                return h(I, obj, idx)
         if isinstance(obj, (list, tuple)):
             if is_z3(idx):
                 # symbolic index into a concrete list: case split
@@ -326,6 +330,10 @@ class Engine:
             return z3.Select(cont.has, unwrap(x))
         if hasattr(cont, "pyvc_contains"):
             return cont.pyvc_contains(I, x)
+        if isinstance(cont, SRef):
+            h = self.contract.callees.get(("contains", cont.cls))
+            if h:
+                return h(I, cont, x)
         if isinstance(cont, (list, tuple, set, frozenset, dict)):
             if is_sym(x) or isinstance(x, SObj) or not I.all_concrete(list(cont)):
                 return zor(*[zbool(I.equals(y, x)) for y in cont])
